@@ -1849,6 +1849,9 @@ pub fn run_probe(words: &[&str]) -> String {
     if *what == "jhmove" {
         return probe_jhmove();
     }
+    if *what == "oncepoison" {
+        return probe_oncepoison(*arg == "1");
+    }
     if *what != "f17" {
         return "ERR unknown probe".to_string();
     }
@@ -1877,6 +1880,99 @@ pub fn run_probe(words: &[&str]) -> String {
     match res {
         Ok(n) => format!("PROBE OK N={}", n),
         Err(p) => format!("PROBE FAIL {}", classify(p)),
+    }
+}
+
+/// probe oncepoison <0|1>: a Once whose first initialiser panicked (caught by the body), then two threads calling
+/// call_once_force.  0: one scripted schedule in which the second caller enters call_once_force (and queues on the cell's
+/// internal lock) before the first one publishes completion, and gets the lock only after the first has returned: exactly
+/// one initialiser must run to completion.  1: all schedules (DFS).  Prints how many initialisers completed.
+fn probe_oncepoison(explore: bool) -> String {
+    use std::sync::atomic::{AtomicUsize, Ordering as O};
+    static COMPLETED: AtomicUsize = AtomicUsize::new(0);
+    static MAXC: AtomicUsize = AtomicUsize::new(0);
+    struct Script {
+        phase: u8,
+        ran: bool,
+    }
+    impl Scheduler for Script {
+        fn new_execution(&mut self) -> Option<Schedule> {
+            if self.ran {
+                None
+            } else {
+                self.ran = true;
+                self.phase = 0;
+                Some(Schedule::new(0))
+            }
+        }
+        fn next_task(&mut self, runnable: &[&Task], _current: Option<TaskId>, _y: bool) -> Option<TaskId> {
+            let has = |id: usize| runnable.iter().any(|t| usize::from(t.id()) == id);
+            let lowest = runnable.iter().map(|t| t.id()).min().unwrap();
+            // main until it blocks joining task 1; then task 2 up to its first scheduling point; then task 1 to its end;
+            // then the lowest runnable id
+            Some(match self.phase {
+                0 if has(0) => TaskId::from(0),
+                0 => {
+                    self.phase = 1;
+                    if has(2) { TaskId::from(2) } else { lowest }
+                }
+                1 => {
+                    self.phase = 2;
+                    if has(1) { TaskId::from(1) } else { lowest }
+                }
+                2 if has(1) => TaskId::from(1),
+                _ => {
+                    self.phase = 3;
+                    lowest
+                }
+            })
+        }
+        fn next_u64(&mut self) -> u64 {
+            0
+        }
+    }
+    let body = || {
+        COMPLETED.store(0, O::SeqCst);
+        let once = Arc::new(shuttle::sync::Once::new());
+        let r = catch_unwind(AssertUnwindSafe(|| once.call_once(|| panic!("vharness: expected panic"))));
+        assert!(r.is_err());
+        let hs: Vec<_> = (0..2)
+            .map(|_| {
+                let once = once.clone();
+                thread::spawn(move || {
+                    once.call_once_force(|_| {
+                        COMPLETED.fetch_add(1, O::SeqCst);
+                    });
+                })
+            })
+            .collect();
+        for h in hs {
+            h.join().unwrap();
+        }
+        MAXC.fetch_max(COMPLETED.load(O::SeqCst), O::SeqCst);
+        assert_eq!(COMPLETED.load(O::SeqCst), 1, "vharness: initialisers completed");
+    };
+    MAXC.store(0, O::SeqCst);
+    let mut config = Config::new();
+    config.failure_persistence = FailurePersistence::None;
+    let res = if explore {
+        catch_unwind(AssertUnwindSafe(|| Runner::new(shuttle_schedulers::DfsScheduler::new(Some(3000), false), config).run(body)))
+    } else {
+        catch_unwind(AssertUnwindSafe(|| Runner::new(Script { phase: 0, ran: false }, config).run(body)))
+    };
+    match res {
+        Ok(n) => format!("PROBE OK N={} completed={}", n, MAXC.load(O::SeqCst)),
+        Err(p) => {
+            let msg = p.downcast_ref::<String>().cloned().or_else(|| p.downcast_ref::<&str>().map(|s| s.to_string())).unwrap_or_default();
+            let class = if msg.contains("initialisers completed") {
+                "two-initialisers"
+            } else if msg.contains("holder.is_none()") {
+                "poisoned-mutex-assertion"
+            } else {
+                "other"
+            };
+            format!("PROBE FAIL {} completed={} msg={}", class, COMPLETED.load(O::SeqCst), msg.replace([' ', '\n'], "_").chars().take(100).collect::<String>())
+        }
     }
 }
 
